@@ -42,7 +42,7 @@ import (
 const (
 	SendOk       = 0
 	SendFail     = 1 // generic transport error
-	SendCanceled = 2 // context.Canceled, whatever the state of the context
+	SendCanceled = 2 // as an outcome: the send returned context.Canceled; as a script entry: same as SendCtx
 	SendCtx      = 3 // ctx.Err() if the context is done, success otherwise
 )
 
@@ -209,12 +209,13 @@ var StuckTotal int
 
 // Sim is one run.
 type Sim struct {
-	Plan      Plan
-	Eng       *rpc.Engine
-	Trace     []Ev
-	Decisions []Decision
-	Problems  []string // harness-level trouble (stuck actor, unknown goroutine)
-	Stranded  []string // callers that blocked although the engine was force-closed
+	Plan         Plan
+	Eng          *rpc.Engine
+	Trace        []Ev
+	Decisions    []Decision
+	Problems     []string // harness-level trouble (stuck actor, unknown goroutine)
+	Stranded     []string // callers that blocked although the engine was force-closed
+	CloseCalled2 bool     // free-running families: ForceClose / Close has been called
 
 	calls    []*callState
 	actors   map[string]*actor
@@ -413,9 +414,9 @@ func (s *Sim) send(ctx context.Context, msgID int64, seqNo int32, in bin.Encoder
 	switch script {
 	case SendFail:
 		out, err = SendFail, ErrSend
-	case SendCanceled:
-		out, err = SendCanceled, context.Canceled
-	case SendCtx:
+	case SendCanceled, SendCtx:
+		// a send reports context.Canceled only if its context is done (true for Conn.write,
+		// which only looks at the context it is given); guard of the model's o = 2 transmissions
 		if e := ctx.Err(); e != nil {
 			out, err = SendCanceled, e
 		}
